@@ -204,6 +204,21 @@ def run(ctx):
             res.fail(Finding("R-MODE.D", key + "/not-rejected", "documented deviation '%s' is no longer refused anywhere in %s: strict open would accept it" % (row["id"], row["function"].split("::")[-1]), f))
             continue
         located += 1
+        # the deviation is refused for exactly the values the documentation names: a weaker relation (`<` where the
+        # check was `!=`) lets part of the deviation through strict validation
+        if row.get("op"):
+            seen_ops = set()
+            for (c, kind, atoms) in found:
+                for a in atoms:
+                    if re.search(row["test"][0], a) or re.search(row["test"][0], wild(a)):
+                        m_ = re.match(r"^\((Eq|Ne|Gt|Ge|Lt|Le)\(", a)
+                        if m_:
+                            seen_ops.add(m_.group(1))
+            mirror = {"Gt": "Lt", "Lt": "Gt", "Ge": "Le", "Le": "Ge", "Eq": "Eq", "Ne": "Ne"}
+            if seen_ops and not any(o in row["op"] or mirror[o] in row["op"] for o in seen_ops):
+                c0 = found[0][0]
+                res.fail(Finding("R-MODE.D", key + "/relation-weakened", "deviation '%s' used to be refused where the values are related by %s; the test now reads %s (line %d): part of the deviation is accepted by strict open" % (row["id"], "/".join(row["op"]), "/".join(sorted(seen_ops)), c0.line), f, c0.term["span"]))
+                continue
         for (c, kind, atoms) in found:
             gated = any(re.search(r"^\(Validation::is_strict\(", a) for a in atoms)
             if row.get("unconditional"):
@@ -466,6 +481,30 @@ def builder(pid):
                 res.fail(Finding(res.rule, "R-BUILDER/%s/validation-not-handed-on" % f.path, "OpenOptions::%s returns a value whose validation mode is %s instead of the one it received: strict() followed by this step opens permissively, and every tolerated deviation is accepted by an open the caller asked to be strict" % (f.d["name"], bad[0][0][:80]), f, bad[0][1]["span"]))
             else:
                 res.ok({"function": f.path, "validation_out": [x for x, _ in vals] or ["the received value, untouched"]}, nontrivial=True)
+        # ... and the methods that finally open hand the option set on: open / open_rw / create delegate with `self`,
+        # and open_with passes self.validation to the parser
+        nd = 0
+        for f in ctx.fx.fns.values():
+            if f.kind == "closure" or peel(f.d.get("impl_self", {})).get("adt") != "OpenOptions" or f.arg_count < 1 or f.locals[1]["s"] != "OpenOptions":
+                continue
+            v = view(ctx, f)
+            pr = Prov(f)
+            for bb, c in sorted(v.calls.items()):
+                if re.search(r"^OpenOptions::(open_with|create_with)$", c.name) and c.term["args"]:
+                    nd += 1
+                    a0 = pr.operand(c.term["args"][0])
+                    if a0 == "param:self":
+                        res.ok({"function": f.path, "delegates_to": c.name, "with": a0})
+                    else:
+                        res.fail(Finding(res.rule, "R-BUILDER/%s/options-not-handed-on" % f.path, "OpenOptions::%s delegates to %s with %s instead of the option set it was called on: strict() (and max_buffer_size) configured by the caller are ignored on this entry point" % (f.d["name"], c.name.split("::")[-1], a0[:60]), f, c.term["span"]))
+                if c.name.endswith("::open_internal"):
+                    nd += 1
+                    args = [pr.operand(a) for a in c.term["args"]]
+                    if "param:self.validation" in args:
+                        res.ok({"function": f.path, "parser_called_with": "self.validation"})
+                    else:
+                        res.fail(Finding(res.rule, "R-BUILDER/%s/validation-not-passed" % f.path, "OpenOptions::%s calls the parser with %s: the configured validation mode is not the one used" % (f.d["name"], ", ".join(a[:40] for a in args)), f, c.term["span"]))
+        res.floor("OpenOptions delegations", nd, ctx.table("floors").get("builder_delegations", 0))
         res.floor("OpenOptions builder steps", n, ctx.table("floors").get("builder_fns", 0))
         return res
     return run
